@@ -236,15 +236,14 @@ theorem each_once (file : Bs) (m : Mode) : (select file m p).Nodup := by
     `loglevels_agree`), with any valid Unicode text, tags present / empty / absent, an exception text or none, a
     timestamp with microseconds and any whole-second UTC offset, goes through `QueueHandler.prepare`,
     `_JSONFormatter.format` and `_ZstdFileHandler.emit` to a line that `PenlogRecord.parse_json` reads back as
-    exactly `expectRead`: same name, host, message (the exception text merged in by the queue), aware timestamp,
+    exactly `expectRead`: same name, host, message (the exception text and the stack merged in by the queue), aware timestamp,
     priority (which maps back to the level), tags, call site, level number / name, function name; and the priority
     the filter looks at is the record's.  With and without the `<prio>` prefix. -/
 theorem record_roundtrip (E : Env) (hE : E.LoadsOk) (pfx : Bool) (host : Str) (lr : LogRec) (h : lr.WF host) :
     ∃ p line, fromLevel lr.levelno = some p ∧ toLevel p = some lr.levelno ∧ emitLine pfx host lr = some line ∧
       lineRecord E line = .ok (expectRead host (queuePrepare lr) p) ∧ linePrioE E line = .ok (p : Int) := by
   obtain ⟨p, r, hp, htl, hf, hrp, ⟨hwf, hp8, hdt⟩, hread⟩ := formatRec_spec host (queuePrepare lr) (queuePrepare_wf host lr h)
-  have hlv : (queuePrepare lr).levelno = lr.levelno := by
-    unfold queuePrepare; split <;> rfl
+  have hlv : (queuePrepare lr).levelno = lr.levelno := rfl
   rw [hlv] at hp htl
   refine ⟨p, writeLine pfx r, hp, htl, by simp [emitLine, hf], ?_, ?_⟩
   · rw [lineRecord_writeLine E hE pfx r hwf, readObj_recObj r (dtOf r) hdt hp8, hread]
@@ -326,6 +325,15 @@ theorem hr_modes_exclusive (argv : List Str) (a b : Str) (ma mb : HrMode) (ha : 
     (hne : ma ≠ mb) (hain : a ∈ argv.takeWhile (fun x => x != ddTok)) (hbin : b ∈ argv.takeWhile (fun x => x != ddTok)) :
     ∀ p, hrPlan argv ≠ .plan p :=
   hrPlan_two_modes argv a b ma mb ha hb hne hain hbin
+
+/-- the same for every argument string argparse resolves to a bare mode option, i.e. also the unique abbreviations
+    (`--ta`, `--hea`, `--rev`, ...): two of them naming different modes are refused -/
+theorem hr_modes_exclusive_abbrev (argv : List Str) (a b : Str) (ida idb : OptId) (la lb : Bool) (ma mb : HrMode)
+    (hca : classify a = some (.opt ida la none)) (hma : modeOf ida = some ma)
+    (hcb : classify b = some (.opt idb lb none)) (hmb : modeOf idb = some mb)
+    (hne : ma ≠ mb) (hain : a ∈ argv.takeWhile (fun x => x != ddTok)) (hbin : b ∈ argv.takeWhile (fun x => x != ddTok)) :
+    ∀ p, hrPlan argv ≠ .plan p :=
+  hrPlan_two_modes_gen argv a b ida idb la lb ma mb hca hma hcb hmb hne hain hbin
 
 /-- ... and a mode option that is accepted is the plan's mode -/
 theorem hr_mode_taken (argv : List Str) (a : Str) (m : HrMode) (p : Plan) (ha : (a, m) ∈ modeToks)
@@ -475,7 +483,7 @@ def lrSample : LogRec :=
   { name := [103, 46, 120], msg := [104, 105, 10, 0x1F600], levelno := 5, levelname := [84, 82, 65, 67, 69],
     created := { year := 2021, month := 10, day := 31, hour := 2, minute := 30, second := 0, micro := 620310, off := some 20700 },
     pathname := [47, 120, 46, 112, 121], lineno := 42, funcName := [102], tags := some [[97], []],
-    excText := some [86, 97, 108, 117, 101, 69, 114, 114, 111, 114] }
+    excText := some [86, 97, 108, 117, 101, 69, 114, 114, 111, 114], stackInfo := some [83, 116, 97, 99, 107] }
 
 def dtSample2 : DT :=
   { year := 1999, month := 2, day := 28, hour := 0, minute := 0, second := 0, micro := 0, off := some (-34215) }
@@ -540,6 +548,11 @@ example : hrPlan [[97, 46, 106, 115, 111, 110], [45]] =
 -- `hr -t x --head` is refused
 example : ∀ p, hrPlan [[45, 116], [120], [45, 45, 104, 101, 97, 100]] ≠ .plan p :=
   hr_modes_exclusive _ [45, 116] [45, 45, 104, 101, 97, 100] .tail .head (by decide) (by decide) (by decide) (by decide) (by decide)
+
+-- `hr --ta x --rev` is refused as well
+example : ∀ p, hrPlan [[45, 45, 116, 97], [120], [45, 45, 114, 101, 118]] ≠ .plan p :=
+  hr_modes_exclusive_abbrev _ [45, 45, 116, 97] [45, 45, 114, 101, 118] .tail .reverse true true .tail .reverse
+    (by decide) rfl (by decide) rfl (by decide) (by decide) (by decide)
 
 example : detect [97, 46, 106, 115, 111, 110, 46, 122, 115, 116] = .zst ∧ detect [46, 122, 115, 116] = .plain ∧
     detect [97, 46, 122, 115, 116, 46] = .plain ∧ detect [100, 46, 122, 115, 116, 47, 120, 46, 103, 122] = .gz := by decide
